@@ -803,7 +803,7 @@ class Generator:
                 return self.fresh_name()
             return r.choice(['s' + self.fresh_name(), datetime.date(2001, 2, r.randint(1, 28)), True, False,
                              models.Account.from_value('Assets:V')] + ([] if self.syntax_only else [D(r.randint(1, 99))]))
-        op = r.choice(['append', 'insert', 'pop', 'delint', 'setint', 'extend', 'remove', 'clear', 'delslice', 'setslice', 'setslice', 'discard', 'iadd'])
+        op = r.choice(['append', 'insert', 'pop', 'delint', 'setint', 'extend', 'remove', 'clear', 'delslice', 'setslice', 'setslice', 'discard', 'iadd', 'reverse'])
         idx = self._index(n)
         ref = list(w)
         desc = f'{path}.{a}.{op}'
@@ -838,6 +838,13 @@ class Generator:
                 vs = [mk(), mk()]
                 apply = lambda: w.extend(vs)
                 ref.extend(vs)
+            elif op == 'reverse':
+                apply = lambda: w.reverse()
+                if any(isinstance(x, mbase.RawModel) for x in ref):
+                    expect = ValueError         # elements that are nodes cannot be moved while attached: refused as a whole
+                else:
+                    ref.reverse()
+                inplace = {id(x) for x in raw_w}
             elif op == 'iadd':
                 vs = [mk(), mk()][:r.randint(0, 2)]
                 desc += f' {vs!r} (attribute form)'
